@@ -9,6 +9,10 @@ import numpoly
 from . import clean
 from ..baseclass import ndpoly
 
+COMPILED_DTYPES = tuple(
+    numpy.dtype(dtype) for dtype in ("bool", "uint32", "int64", "float64", "complex128")
+)
+
 
 def polynomial_from_attributes(
     exponents: numpy.typing.ArrayLike,
@@ -91,10 +95,18 @@ def polynomial_from_attributes(
         allocation=allocation,
     )
 
-    if coefficients:
+    if not coefficients:
+        for key in poly.keys:
+            poly.values[key] = 0
+    elif poly.dtype in COMPILED_DTYPES and all(
+        coefficient.dtype == poly.dtype and coefficient.flags.writeable
+        for coefficient in coefficients
+    ):
         numpoly.cfrom_attributes(coefficients, poly.values.ravel())
-
-    # for key, values in zip(poly.keys, coefficients):
-    #    poly.values[key] = values
+    else:
+        # the compiled setter only handles a few dtypes, and only
+        # writable buffers of exactly the dtype of the polynomial.
+        for key, values in zip(poly.keys, coefficients):
+            poly.values[key] = values
 
     return poly
